@@ -81,7 +81,7 @@ class LifeAdapter(c16.SysAdapter):
                         if res is None or not res.success:
                             return {'_skip': True}
                         obs['ret'] = flatten(call_variant(p, l['fn'], FNS[l['fn']]), list(c16.T))
-                        obs['ref'] = self.reference(l['result'][1], l['fn'])
+                        obs['ref'] = self.reference(l['result'][1], l['fn'], near=res.x)
                         if obs['ref'] is None:
                             return {'_skip': True}
                     elif act == 'UserTransform':
@@ -100,16 +100,20 @@ class LifeAdapter(c16.SysAdapter):
         obs['system_untouched'] = c16.fingerprint(s) == before
         return obs
 
-    def reference(self, snap, fn):
-        """the value of fn on a freshly built and solved System with the snapshot's parameters"""
-        key = (repr(sorted(snap.items())), fn)
+    def reference(self, snap, fn, near=None):
+        """the value of fn on a freshly built and solved System with the snapshot's parameters.  The discretised PRISM equations
+        may have more than one root, and which one a solve from the zero guess reaches depends on rounding (benign/B_C01x): the
+        fresh System is solved FROM the judged object's own solution, so it returns the root next to it - if that solution is a
+        root of the fresh System at all (which is the statement) - and otherwise runs away from it"""
+        root = None if near is None else hash(np.round(np.asarray(near) / (1.0 + float(np.max(np.abs(near)))), 5).tobytes())
+        key = (repr(sorted(snap.items())), fn, root)
         if key not in self.fnref:
             sc = c16.sys_from_cfg(full(snap))
             s = systems.build(sc)
             with warnings.catch_warnings():
                 warnings.simplefilter('ignore')
                 with np.errstate(all='ignore'):
-                    p = s.solve(options=dict(SOLVE_OPTS))
+                    p = s.solve(guess=None if near is None else np.array(near, dtype=float), options=dict(SOLVE_OPTS))
                     self.fnref[key] = flatten(call_variant(p, fn, FNS[fn]), list(c16.T)) if p.minimize_result.success else None
         return self.fnref[key]
 
